@@ -18,18 +18,20 @@ Report(prop, key) == CSVWrite("%1$s", <<ToJson([prop |-> prop, trace |-> tid, li
 TInit == Init /\ l = 1 /\ tid = 0 /\ pf = <<>>
 Reset == /\ l <= Len(Trace) /\ E.op = "Reset" /\ l' = l + 1 /\ tid' = E.trace /\ pf' = <<>>
          /\ cells' = <<>> /\ arrays' = <<>> /\ own' = <<>> /\ parent' = <<>> /\ ntok' = 0 /\ nops' = 0 /\ hist' = <<>>
+\* (in long histories only some statements are observed after each operation: the others carry the marker <<-2>>)
+Seen(f, c) == c \in DOMAIN f /\ f[c] # <<-2>>
 Mon ==
   LET fl == E.flats IN
-  /\ \A c \in DOMAIN fl : (c \in DOMAIN cells' /\ fl[c] # FlatNext(c)) => Report("DRIFT", "flat")
+  /\ \A c \in DOMAIN fl : (~E.light /\ Seen(fl, c) /\ c \in DOMAIN cells' /\ fl[c] # FlatNext(c)) => Report("DRIFT", "flat")   \* (long histories: monitors only)
   /\ Len(fl) # Len(cells') => Report("DRIFT", "cells")
   \* tokens appended to a statement are never lost, altered or reordered, nothing is duplicated
-  /\ \A c \in DOMAIN fl : (c \in DOMAIN own' /\ ~(IsSubseq(own'[c], fl[c]) /\ NoDup(fl[c]))) => Report("C20", "tokens lost or reordered")
+  /\ \A c \in DOMAIN fl : (Seen(fl, c) /\ c \in DOMAIN own' /\ ~(IsSubseq(own'[c], fl[c]) /\ NoDup(fl[c]))) => Report("C20", "tokens lost or reordered")
   \* an append changes only the statement appended to and its clones
-  /\ \A c \in DOMAIN pf : (E.op = "App" /\ c # E.c /\ ~Ancestor(E.c, c) /\ c \in DOMAIN fl /\ fl[c] # pf[c])
+  /\ \A c \in DOMAIN pf : (E.op = "App" /\ c # E.c /\ ~Ancestor(E.c, c) /\ Seen(fl, c) /\ Seen(pf, c) /\ fl[c] # pf[c])
                             => Report("C20", IF Ancestor(c, E.c) THEN "append to a clone changed its original" ELSE "append changed an unrelated statement")
-  /\ (E.op = "App" /\ E.c \in DOMAIN pf /\ E.c \in DOMAIN fl /\ fl[E.c] # pf[E.c] \o TokIds(E.k)) => Report("C20", "appended tokens not at the end")
+  /\ (E.op = "App" /\ Seen(pf, E.c) /\ Seen(fl, E.c) /\ fl[E.c] # pf[E.c] \o TokIds(E.k)) => Report("C20", "appended tokens not at the end")
   \* a fresh clone renders like its original
-  /\ (E.op = "Clone" /\ Len(fl) >= 1 /\ E.c \in DOMAIN fl /\ fl[Len(fl)] # fl[E.c]) => Report("C20", "clone differs from original")
+  /\ (E.op = "Clone" /\ Len(fl) >= 1 /\ Seen(fl, E.c) /\ Seen(fl, Len(fl)) /\ fl[Len(fl)] # fl[E.c]) => Report("C20", "clone differs from original")
 Op == /\ l <= Len(Trace) /\ E.op # "Reset" /\ l' = l + 1 /\ UNCHANGED tid
       /\ \/ E.op = "New" /\ New(E.k)
          \/ E.op = "App" /\ App(E.c, E.k)
